@@ -32,6 +32,9 @@ func (c *chunkReader) Read(p []byte) (int, error) {
 	if len(c.sched) > 0 {
 		k := c.sched[c.si%len(c.sched)]
 		c.si++
+		if k == 0 {
+			return 0, nil // an empty read (allowed by io.Reader: a poll that found nothing); never two in a row here
+		}
 		if k < n {
 			n = k
 		}
@@ -176,7 +179,8 @@ func (e *streamEmitter) put(g int, data []byte, errat int, errkind string, sched
 
 // chunkings returns the chunk schedules to try for a stream of n bytes with region boundaries cuts.
 func chunkings(r *rand.Rand, n int, cuts []int, thorough bool) [][]int {
-	out := [][]int{nil, {1}}
+	// {0, 1}: a poll that finds nothing before every single byte; {0, 2, 0, 7}: the same with small pieces
+	out := [][]int{nil, {1}, {0, 1}, {0, 2, 0, 7}}
 	rs := make([]int, 8)
 	for i := range rs {
 		rs[i] = 1 + r.Intn(7)
